@@ -37,4 +37,25 @@ theorem changesCopy_order : orderOK true changesCopy = true := by decide +kernel
 theorem changesMove_order : orderOK true changesMove = true := by decide +kernel
 theorem changesRemove_order : orderOK false changesRemove = true := by decide +kernel
 
+/-- `internal.Copy`: the source is opened before the destination is created; the destination is
+    created by a truncating call (`os.Create`, or `os.OpenFile` with `O_TRUNC` among its flags), so
+    nothing of an older file of the same name survives; the data is copied after that; and a
+    failed copy removes the destination (`os.Remove` after `io.Copy`) -/
+def containsS (needle : List Char) : List Char → Bool
+  | [] => needle.isEmpty
+  | c :: rest => (needle.isPrefixOf (c :: rest)) || containsS needle rest
+
+def copyOK : Option (List String) → Bool
+  | none => true
+  | some cs =>
+    let truncating := fun (c : String) =>
+      c == "os.Create" || (c.startsWith "os.OpenFile:" && containsS "O_TRUNC".toList c.toList && containsS "O_CREATE".toList c.toList)
+    let creating := fun (c : String) => c == "os.Create" || c.startsWith "os.OpenFile:"
+    match cs.findIdx? (· == "os.Open"), cs.findIdx? creating, cs.findIdx? (· == "io.Copy"), cs.findIdx? (· == "os.Remove") with
+    | some o, some c, some d, some r => decide (o < c) && decide (c < d) && decide (d < r) && truncating (cs.getD c "") &&
+        ((cs.filter creating).length == 1)
+    | _, _, _, _ => false
+
+theorem internalCopy_calls : copyOK internalCopy = true := by decide +kernel
+
 end GoDebian.Tie.Upload
